@@ -178,8 +178,15 @@ pub fn run_c16(ctx: &Ctx) {
             n.fetch_add(c, Ordering::Relaxed);
             return;
         }
-        // path sensitivity
+        // path sensitivity (and Key::const_cmp must agree with byte equality on every pair)
         for a in 0..paths.len() {
+            for b in a..paths.len() {
+                let ka = Key::for_owned_schema_path(paths[a], &to_owned(t));
+                let kb = Key::for_owned_schema_path(paths[b], &to_owned(t));
+                if ka.const_cmp(&kb) != (ka.to_bytes() == kb.to_bytes()) || (ka == kb) != (ka.to_bytes() == kb.to_bytes()) {
+                    ctx.violation("key-comparison", format!("const_cmp / == disagree with byte equality for keys {} and {}", hex(&ka.to_bytes()), hex(&kb.to_bytes())), i as u64, json!({"schema": t, "paths": [paths[a], paths[b]]}));
+                }
+            }
             for b in a + 1..paths.len() {
                 if base[a].0 == base[b].0 {
                     ctx.violation("key-insensitive-path", format!("paths {:?} and {:?} give the same key", paths[a], paths[b]), i as u64, json!({"schema": t}));
